@@ -47,7 +47,7 @@ func runC05(c *mon.Ctx) {
 	defer os.RemoveAll(base)
 
 	opts := gen.ZOpts{MaxFiles: c.Scale(12, 40), MaxData: c.Scale(64, 256), Modes: true}
-	n := c.Share(c.Scale(6_000, 300_000))
+	n := c.Share(c.Scale(18_000, 300_000))
 	for i := 0; i < n; i++ {
 		cs := &c05Case{id: fmt.Sprintf("l%d", i), family: "honest", mod: gen.ZGoodModule(r)}
 		o := opts
